@@ -88,6 +88,7 @@ def sig_of(case, clause):
     s = {"route": case["route"], "clause": clause}
     s.update(case["d"])
     s.update(case["tags"])
+    s["first"] = case.get("first", "conn")
     return s
 
 
